@@ -279,3 +279,14 @@ Example ex_hist_check :
   hist_check {| h_final := ex_case (Fin 1141870915999781 (-51)) NaN; h_prefix := [(1%nat, ([1; 2]%nat, [NaN; NaN])); (3%nat, ([1; 2]%nat, [Fin (-5896596054914346) (-53); NaN]))] |} = true
   /\ hist_check {| h_final := ex_case (Fin 1141870915999781 (-51)) NaN; h_prefix := [(3%nat, ([1; 2]%nat, [NaN; NaN]))] |} = false.
 Proof. split; vm_compute; reflexivity. Qed.
+
+(* wide layout: 3 words (all the column 2 3 1 6) x 3 samples (column 1 2 4 5 twice, then the constant 3) *)
+Definition ex_wide (obs : list (nat * nat * fval)) : wide_case :=
+  {| w_kind := KCpa; w_prec := F64; w_dims := [3]%nat; w_scols := [[1; 2; 4; 5]; [3; 3; 3; 3]]%Z; w_wcols := [[2; 3; 1; 6]]%Z;
+     w_slayout := [(0%nat, 2%positive); (1%nat, 1%positive)]; w_wlayout := [(0%nat, 3%positive)];
+     w_obs_shape := [3; 3]%nat; w_obs := obs |}.
+Example ex_wide_check :
+  wide_check (ex_wide [(2%nat, 1%nat, Fin 1141870915999781 (-51)); (0%nat, 2%nat, NaN)]) = true
+  /\ wide_check (ex_wide [(2%nat, 2%nat, Fin 1141870915999781 (-51))]) = false       (* finite where the sample is constant *)
+  /\ wide_check (ex_wide [(3%nat, 0%nat, NaN)]) = false.                               (* position outside the result *)
+Proof. repeat split; vm_compute; reflexivity. Qed.
